@@ -7,7 +7,8 @@
                   per way of producing it ((n)! entries in all).
   * `combs p t`   the sub-lists of length p in lexicographic index order — the order of itertools.combinations.
   * `nextArr l`   the lexicographic successor of l among its arrangements, the least arrangement if l is the last one;
-                  computed by brute force over `perms l`.
+                  computed by brute force over `perms l`  (`Proofs.C20.nextperm_eq_nextArr`: = the model's result for
+                  every l, which `nextperm_succ` / `nextperm_unique` characterise as THE successor).
 -/
 namespace Spec.Perms
 
